@@ -149,6 +149,47 @@ def rand_value(rng, allow_zero=True):
     return float(rng.randint(1, 99999) * Fraction(10) ** rng.randint(-6, 6))
 
 
+NUM_TYPES = ["float", "float", "int", "bool", "np.int64", "np.int32", "np.float32", "np.float64", "Fraction", "arange-item"]
+
+
+def rand_num(rng):
+    """a bare number of one of the numeric types `numbers.Number` covers; the float it denotes is exact"""
+    t = rng.choice(NUM_TYPES)
+    if t == "float":
+        return {"num": rand_value(rng)}
+    if t == "bool":
+        return {"num": float(rng.randint(0, 1)), "ntype": t}
+    if t in ("int", "np.int64", "np.int32", "arange-item"):
+        return {"num": float(rng.randint(0, 999)), "ntype": t}
+    if t == "Fraction":
+        return {"num": rng.randint(0, 4096) / 2 ** rng.randint(0, 6), "ntype": t}
+    return {"num": rng.randint(0, 4096) / 8.0, "ntype": t}          # exact in float32 and float64
+
+
+def typed_number(s):
+    import numpy as np
+    v, t = s["num"], s.get("ntype", "float")
+    if t == "float":
+        return float(v)
+    if t == "int":
+        return int(v)
+    if t == "bool":
+        return bool(v)
+    if t == "np.int64":
+        return np.int64(int(v))
+    if t == "np.int32":
+        return np.int32(int(v))
+    if t == "np.float32":
+        return np.float32(v)
+    if t == "np.float64":
+        return np.float64(v)
+    if t == "Fraction":
+        return Fraction(v)
+    if t == "arange-item":
+        return np.arange(int(v), int(v) + 2)[0]
+    raise ValueError(t)
+
+
 def rand_scalar(rng, dim, wrong=False):
     """a single-value description whose dimension is `dim` (or differs when wrong)"""
     d = dim
@@ -167,7 +208,7 @@ def rand_k(rng, dim, envs):
     """(description, expected_ok)"""
     r = rng.random()
     if r < 0.40:
-        return {"num": rand_value(rng)}, True
+        return rand_num(rng), True
     if r < 0.60:
         return rand_scalar(rng, dim), True
     if r < 0.72:
@@ -186,7 +227,7 @@ def rand_k(rng, dim, envs):
     for k in keys:
         q = rng.random()
         if q < 0.5:
-            entries.append([k, {"num": rand_value(rng)}])
+            entries.append([k, rand_num(rng)])
         elif q < 0.85:
             entries.append([k, rand_scalar(rng, dim)])
         else:
@@ -222,7 +263,7 @@ def k_wire(k):
 def impl_scalar(s):
     from strengths.units import UnitValue, Units, UnitsSystem, UnitsDimensions
     if "num" in s:
-        return s["num"]
+        return typed_number(s)
     if "uval" in s:
         u = s["uval"]
         return UnitValue(u["v"], Units(UnitsSystem(*u["sys"]), UnitsDimensions(*u["dim"])))
@@ -395,7 +436,12 @@ def run_impl(case):
         r = Reaction(sto, kf=impl_k(case["kf"]), kr=impl_k(case["kr"]), units_system=sys)
     except Exception as ex:  # noqa
         return {"error": type(ex).__name__}
-    labels = case["labels"]
+    return observe_all(r, case["labels"], sys)
+
+
+def observe_all(r, labels, sys):
+    """everything the property names, of a built reaction (`sys`: a units system object to re-parse the printed text in)"""
+    from strengths.rdnetwork import Reaction
     out = observe(r, labels)
     try:
         f, b = r.split()
@@ -457,6 +503,8 @@ def oracle(case, got):
     rp = got["reparsed"]
     if "error" in rp or rp["ssto"] != es or rp["psto"] != ep:
         fails.append(("print-parse", "printing and parsing back does not give the same reaction", {"ssto": es, "psto": ep}))
+    if got.get("sys") != list(sys):
+        fails.append(("units-system", "the reaction's units system is not the one it was built with", list(sys)))
     skf, skr = spec_k(case["kf"], sys, k_dim(n)), spec_k(case["kr"], sys, k_dim(m))
     if not stored_ok(got["kf"], skf, case["kf"]) or not stored_ok(got["kr"], skr, case["kr"]):
         fails.append(("k-stored", "stored constants differ (bare numbers must get the order's units in the reaction's system; "
@@ -738,11 +786,105 @@ def run(ctx):
         if r is not None and ("error" in r) != ("error" in got):
             ctx.disagree("network", desc, got, r)
 
+    # ---------------------------------------------------------------- 5. the reaction owns its units system
+    seqs = [gen_alias(rng) for _ in range(ctx.n(300, 4000))]
+    runs, ops = [], []
+    for case in seqs:
+        for what, exp, got in run_alias(case):
+            runs.append((case, what, exp, got))
+            ops.append(wire(exp))
+    res = ctx.model.run(ops)
+    for (case, what, exp, got), r in zip(runs, res):
+        ctx.case(("alias", case["scenario"], exp["eq"], str(exp["kf"]), tuple(exp["sys"])), nontrivial=True)
+        ctx.count("alias_" + case["scenario"])
+        for key, msg, expected in oracle(exp, got):
+            ctx.violation("aliasing:%s:%s" % (case["scenario"], key), "%s: %s" % (what, msg), case, impl=got, expected=expected)
+        if r is not None and not compare_model(got, r, check_K=k_in_range(
+                spec_k(exp["kf"], exp["sys"], k_dim(sum(exp["expect"]["sub"].values()))),
+                spec_k(exp["kr"], exp["sys"], k_dim(sum(exp["expect"]["prod"].values()))), exp["sys"],
+                sum(exp["expect"]["sub"].values()), sum(exp["expect"]["prod"].values()))):
+            ctx.disagree("reaction-aliasing", case, got, r)
+
     ctx.notes.append("no partial theorem left: parse_render (any blanks, no hypothesis on the rendered text), print_parse (all coefficients incl. "
                      "zero first terms, every label list), split_spec (single values and per-environment dictionaries) are proved in full; "
                      "hypothesis of parse_render / print_parse: labels are words for str.split() without '+' and '->' (LabelWord)")
     ctx.notes.append("the label check admits '->' and non-ASCII blanks (\\x1c-\\x1f, \\x85, \\xa0 ...) that an equation text cannot carry; "
                      "parse_render / print_parse carry 'label is a word without \"->\"' as a hypothesis (DESIGN §6 C19)")
+
+
+# ---------------------------------------------------------------------------------------------
+# a reaction owns its units system: in-place edits of the caller's / the default object after construction
+# ---------------------------------------------------------------------------------------------
+def set_sys(us, sys):
+    us.space, us.time, us.quantity = sys
+
+
+def simple_case(rng, sys, pool):
+    lhs, rhs = rand_terms(rng, pool, 3), rand_terms(rng, pool, 3)
+    sub, prod = sum_repeats(lhs), sum_repeats(rhs)
+    return {"kind": "equation", "eq": render(rng, lhs, rhs, tight=True), "sys": list(sys), "kf": rand_num(rng), "kr": rand_num(rng),
+            "labels": list(pool) + ["absent"], "ast": {"lhs": [[c, l] for c, l in lhs], "rhs": [[c, l] for c, l in rhs]},
+            "expect": {"ok": True, "why": "", "sub": sub, "prod": prod}}
+
+
+def gen_alias(rng):
+    pool = ["A", "B", "C"]
+    scenario = rng.choice(["caller-edit", "default-edit", "setter-edit"])
+    sys1, sys2, sys3 = rand_sys(rng), rand_sys(rng), rand_sys(rng)
+    while sys2 == sys1:
+        sys2 = rand_sys(rng)
+    while sys3 in (sys1, sys2):
+        sys3 = rand_sys(rng)
+    if scenario == "default-edit":
+        sys1 = DEFAULT_SYS
+    c1 = simple_case(rng, sys1, pool)
+    c2 = simple_case(rng, sys1 if scenario == "default-edit" else sys2, pool)
+    return {"kind": "aliasing", "scenario": scenario, "sys1": list(sys1), "sys2": list(sys2), "sys3": list(sys3), "first": c1, "second": c2,
+            "knew": rand_num(rng)}
+
+
+def run_alias(case):
+    """execute the sequence on the real code; returns [(what, expected-case, observation)] for the oracle"""
+    from strengths.rdnetwork import Reaction
+    from strengths.units import UnitsSystem
+    sc, c1, c2 = case["scenario"], case["first"], case["second"]
+    sys1, sys2, sys3 = case["sys1"], case["sys2"], case["sys3"]
+    out = []
+    restore = None
+    try:
+        if sc == "caller-edit":
+            us = UnitsSystem(*sys1)
+            r1 = Reaction(c1["eq"], kf=impl_k(c1["kf"]), kr=impl_k(c1["kr"]), units_system=us)
+            set_sys(us, sys2)                                   # the caller re-uses its object for the next reaction
+            r2 = Reaction(c2["eq"], kf=impl_k(c2["kf"]), kr=impl_k(c2["kr"]), units_system=us)
+            out.append(("the first reaction after the caller's object was edited in place", c1, observe_all(r1, c1["labels"], UnitsSystem(*sys1))))
+            out.append(("the second reaction, built with the edited object", c2, observe_all(r2, c2["labels"], UnitsSystem(*sys2))))
+            r1.kf = typed_number(case["knew"])                  # a bare number set later is read in r1's OWN system
+            c1b = dict(c1, kf=case["knew"])
+            out.append(("the first reaction after kf was set again", c1b, observe_all(r1, c1["labels"], UnitsSystem(*sys1))))
+        elif sc == "default-edit":
+            r1 = Reaction(c1["eq"], kf=impl_k(c1["kf"]), kr=impl_k(c1["kr"]))
+            restore = r1.units_system
+            set_sys(r1.units_system, sys2)                      # edits r1's own system, not the default of the package
+            r2 = Reaction(c2["eq"], kf=impl_k(c2["kf"]), kr=impl_k(c2["kr"]))
+            out.append(("a reaction built with the default units system after another default-built reaction's system was edited",
+                        c2, observe_all(r2, c2["labels"], UnitsSystem())))
+        else:
+            r1 = Reaction(c1["eq"], kf=impl_k(c1["kf"]), kr=impl_k(c1["kr"]), units_system=UnitsSystem(*sys1))
+            us2 = UnitsSystem(*sys2)
+            r1.units_system = us2
+            set_sys(us2, sys3)                                  # the object handed to the setter is edited afterwards
+            r1.kf = typed_number(case["knew"])
+            r1.kr = impl_k(c1["kr"])
+            c1b = dict(c1, kf=case["knew"], sys=list(sys2))
+            out.append(("the reaction whose units_system was set from an object edited afterwards", c1b,
+                        observe_all(r1, c1["labels"], UnitsSystem(*sys2))))
+    except Exception as ex:  # noqa
+        out.append(("the sequence", c1, {"error": type(ex).__name__}))
+    finally:
+        if restore is not None:
+            set_sys(restore, DEFAULT_SYS)                       # (on a tree that aliases the default: put it back)
+    return out
 
 
 def net_invalid(desc):
@@ -784,6 +926,13 @@ def replay(ctx, rec):
         got = run_impl(case)
         fails = oracle(case, got)
         return (not fails), {"case": case, "impl": got, "failures": [[k, w] for k, w, _ in fails]}
+    if kind == "aliasing":
+        fails = []
+        outs = run_alias(case)
+        for what, exp, got in outs:
+            fails += [[what, k, w] for k, w, _ in oracle(exp, got)]
+        return (not fails), {"case": case, "failures": fails,
+                             "impl": [{"what": w, "kf": g.get("kf"), "kr": g.get("kr"), "sys": g.get("sys"), "error": g.get("error")} for w, _, g in outs]}
     if kind == "malformed":
         from strengths.rdnetwork import Reaction
         try:
